@@ -56,6 +56,17 @@ CHECKS = {
     {"pkg": "./stage", "test": "TestC09", "shards": {"quick": 16, "thorough": 16}},
   ],
  },
+ "C01": {
+  "engine": "E-HIST",
+  "rule": "breadth-first search over action histories on the real stage.Stage + real receive log in virtual time (replay-from-scratch successors); the harness consumes the final directory after every step and checks every arrival against the versions announced so far and the receive log; states deduplicated on sandbox listing + private stage state; non-trivial = at least two part receptions",
+  "level": "Every history within the bounds is executed on the real Stage; the property's invariant is evaluated in every reached state.",
+  "note": "Bounds: see coverage.parts[].bound. Goroutine interleavings inside the stage are the Go runtime's single-P schedule (E-SCHED part covers concurrent connections); corruption of a .wait body after validation is outside the property's list of corruptions.",
+  "technique": "explicit-state breadth-first search over operation histories on the implementation in virtual time, invariant oracle",
+  "assumptions": ["single-P deterministic schedule between harness actions", "process death modelled as loss of all in-memory state with the directory tree as of a completed system call"],
+  "parts": [
+    {"pkg": "./stage", "test": "TestC01", "shards": {"quick": 16, "thorough": 16}},
+  ],
+ },
 }
 
 NOT_APPLICABLE = {}
